@@ -105,6 +105,17 @@ def AnalogPayload_isValidPayload (m : Bytes) (a_data : Nat) (a_size : Nat) : Opt
   let t4 ← (if (decide (a_size ≥ 16)) then (do let t1 ← AnalogPayload_Header_getSampleDt m v_header; let t3 ← (if (t1 == 0) then pure true else (do let t2 ← AnalogPayload_Header_getSampleDt m v_header; pure (t2 == 256))); pure t3) else pure false)
   pure t4
 
+/-- `ASAM::CMP::Payload::setData` (line 71) -/
+def Payload_setData_x_u64 (m : Bytes) (this_ : Nat) (x_data : Bytes) (a_size : Nat) : Option Bytes := do
+  let m := resize m (uadd 64 16 a_size)
+  let m ← wrBytes m (0 + 16) x_data a_size
+  pure m
+
+/-- `ASAM::CMP::AnalogPayload::setData` (line 147) -/
+def AnalogPayload_setData (m : Bytes) (this_ : Nat) (x_data : Bytes) (a_size : Nat) : Option Bytes := do
+  let m ← Payload_setData_x_u64 m this_ x_data a_size
+  pure m
+
 /-- `ASAM::CMP::AnalogPayload::setFlags` (line 81) -/
 def AnalogPayload_setFlags (m : Bytes) (pd_ pdsize_ : Nat) (this_ : Nat) (a_flags : Nat) : Option Bytes := do
   let t1 ← AnalogPayload_getHeader_v2 pd_ pdsize_ this_
@@ -512,6 +523,22 @@ def CanPayloadBase_setCrcSupport (m : Bytes) (pd_ pdsize_ : Nat) (this_ : Nat) (
   let m ← CanPayloadBase_Header_setCrcSupport m t1 a_support
   pure m
 
+/-- `ASAM::CMP::Payload::setData` (line 71) -/
+def Payload_setData_x_u642 (m : Bytes) (this_ : Nat) (x_data : Bytes) (a_size : Nat) : Option Bytes := do
+  let m := resize m (uadd 64 16 a_size)
+  let m ← wrBytes m (0 + 16) x_data a_size
+  pure m
+
+/-- `ASAM::CMP::CanPayloadBase::setData` (line 252) -/
+def CanPayloadBase_setData (m : Bytes) (this_ : Nat) (x_data : Bytes) (a_dataLength : Nat) : Option Bytes := do
+  let m ← Payload_setData_x_u642 m this_ x_data a_dataLength
+  let t1 ← CanPayloadBase_getHeader_v2 0 m.length this_
+  let m ← CanPayloadBase_Header_setDataLength m t1 a_dataLength
+  let t2 ← CanPayloadBase_getHeader_v2 0 m.length this_
+  let t3 ← CanPayloadBase_encodeDlc this_ a_dataLength
+  let m ← CanPayloadBase_Header_setDlc m t2 t3
+  pure m
+
 /-- `ASAM::CMP::CanPayloadBase::setErrorPosition` (line 232) -/
 def CanPayloadBase_setErrorPosition (m : Bytes) (pd_ pdsize_ : Nat) (this_ : Nat) (a_position : Nat) : Option Bytes := do
   let t1 ← CanPayloadBase_getHeader_v2 pd_ pdsize_ this_
@@ -638,6 +665,34 @@ def CaptureModulePayload_Header_setUptime (m : Bytes) (this_ : Nat) (a_newUptime
   let m ← wr m this_ 8 t1
   pure m
 
+/-- `ASAM::CMP::CaptureModulePayload::fillWithString` (line 285) -/
+def CaptureModulePayload_fillWithString (m : Bytes) (this_ : Nat) (a_ptr : Nat) (x_str : Bytes) : Option (Bytes × Nat) := do
+  let t1 ← sadd 32 (x_str.length % 65536) 1
+  let v_length := (t1 % 65536)
+  let t2 ← smod 32 v_length 2
+  if (t2 != 0) then
+    let t3 ← sadd 32 v_length 1
+    let v_length := (t3 % 65536)
+    let t4 ← swapEndian_u16 v_length
+    let v_swappedLength := t4
+    let m ← wrBytes m a_ptr (leEnc 2 v_swappedLength) 2
+    let a_ptr := (a_ptr + 2)
+    let m ← wrBytes m a_ptr x_str x_str.length
+    let a_ptr := (a_ptr + x_str.length)
+    let m ← wrBytes m a_ptr ([0, 0] : Bytes) (usub 64 v_length x_str.length)
+    let a_ptr := (a_ptr + (usub 64 v_length x_str.length))
+    pure (m, a_ptr)
+  else
+    let t5 ← swapEndian_u16 v_length
+    let v_swappedLength := t5
+    let m ← wrBytes m a_ptr (leEnc 2 v_swappedLength) 2
+    let a_ptr := (a_ptr + 2)
+    let m ← wrBytes m a_ptr x_str x_str.length
+    let a_ptr := (a_ptr + x_str.length)
+    let m ← wrBytes m a_ptr ([0, 0] : Bytes) (usub 64 v_length x_str.length)
+    let a_ptr := (a_ptr + (usub 64 v_length x_str.length))
+    pure (m, a_ptr)
+
 /-- `ASAM::CMP::CaptureModulePayload::getHeader` (line 275) -/
 def CaptureModulePayload_getHeader_v (pd_ pdsize_ : Nat) (this_ : Nat) : Option Nat := do
   pure pd_
@@ -646,6 +701,35 @@ def CaptureModulePayload_getHeader_v (pd_ pdsize_ : Nat) (this_ : Nat) : Option 
 def CaptureModulePayload_getCurrentUtcOffset (m : Bytes) (pd_ pdsize_ : Nat) (this_ : Nat) : Option Nat := do
   let t1 ← CaptureModulePayload_getHeader_v pd_ pdsize_ this_
   let t2 ← CaptureModulePayload_Header_getCurrentUtcOffset m t1
+  pure t2
+
+/-- `ASAM::CMP::CaptureModulePayload::initStringView` (line 302) -/
+def CaptureModulePayload_initStringView (m : Bytes) (a_ptr : Nat) (a_str : Nat × Nat) : Option (Nat × (Nat × Nat)) := do
+  let t1 ← rd m a_ptr 2
+  let t2 ← swapEndian_u16 t1
+  let v_length := t2
+  let a_ptr := (a_ptr + 2)
+  let a_str := (a_ptr, v_length)
+  let t3 ← nonneg 32 v_length
+  let a_ptr := (a_ptr + t3)
+  pure (a_ptr, a_str)
+
+/-- `ASAM::CMP::CaptureModulePayload::removeTrailingNulls` (line 312) -/
+def CaptureModulePayload_removeTrailingNulls (m : Bytes) (a_str : Nat × Nat) : Option (Nat × Nat) := do
+  let t1 ← svFind m a_str (0 % 256)
+  let v_trim_pos := t1
+  if (v_trim_pos != 18446744073709551615) then
+    let t2 ← svRemoveSuffix a_str (usub 64 a_str.2 v_trim_pos)
+    let a_str := t2
+    pure a_str
+  else
+    pure a_str
+
+/-- `ASAM::CMP::CaptureModulePayload::getDeviceDescription` (line 157) -/
+def CaptureModulePayload_getDeviceDescription (m : Bytes) (pd_ pdsize_ : Nat) (this_ : Nat) : Option (Nat × Nat) := do
+  let v_deviceDescription := ((0, 0) : Nat × Nat)
+  let (t1, v_deviceDescription) ← CaptureModulePayload_initStringView m (pd_ + 26) v_deviceDescription
+  let t2 ← CaptureModulePayload_removeTrailingNulls m v_deviceDescription
   pure t2
 
 /-- `ASAM::CMP::CaptureModulePayload::getDomainNumber` (line 137) -/
@@ -672,9 +756,42 @@ def CaptureModulePayload_getGptpFlags (m : Bytes) (pd_ pdsize_ : Nat) (this_ : N
   let t2 ← CaptureModulePayload_Header_getGptpFlags m t1
   pure t2
 
+/-- `ASAM::CMP::CaptureModulePayload::getHardwareVersion` (line 172) -/
+def CaptureModulePayload_getHardwareVersion (m : Bytes) (pd_ pdsize_ : Nat) (this_ : Nat) : Option (Nat × Nat) := do
+  let v_hardwareVersion := ((0, 0) : Nat × Nat)
+  let (t1, v_hardwareVersion) ← CaptureModulePayload_initStringView m (pd_ + 26) v_hardwareVersion
+  let v_ptr := t1
+  let (t2, v_hardwareVersion) ← CaptureModulePayload_initStringView m v_ptr v_hardwareVersion
+  let v_ptr := t2
+  let (t3, v_hardwareVersion) ← CaptureModulePayload_initStringView m v_ptr v_hardwareVersion
+  let t4 ← CaptureModulePayload_removeTrailingNulls m v_hardwareVersion
+  pure t4
+
 /-- `ASAM::CMP::CaptureModulePayload::getHeader` (line 280) -/
 def CaptureModulePayload_getHeader_v2 (pd_ pdsize_ : Nat) (this_ : Nat) : Option Nat := do
   pure pd_
+
+/-- `ASAM::CMP::CaptureModulePayload::getSerialNumber` (line 164) -/
+def CaptureModulePayload_getSerialNumber (m : Bytes) (pd_ pdsize_ : Nat) (this_ : Nat) : Option (Nat × Nat) := do
+  let v_serialNumber := ((0, 0) : Nat × Nat)
+  let (t1, v_serialNumber) ← CaptureModulePayload_initStringView m (pd_ + 26) v_serialNumber
+  let v_ptr := t1
+  let (t2, v_serialNumber) ← CaptureModulePayload_initStringView m v_ptr v_serialNumber
+  let t3 ← CaptureModulePayload_removeTrailingNulls m v_serialNumber
+  pure t3
+
+/-- `ASAM::CMP::CaptureModulePayload::getSoftwareVersion` (line 181) -/
+def CaptureModulePayload_getSoftwareVersion (m : Bytes) (pd_ pdsize_ : Nat) (this_ : Nat) : Option (Nat × Nat) := do
+  let v_softwareVersion := ((0, 0) : Nat × Nat)
+  let (t1, v_softwareVersion) ← CaptureModulePayload_initStringView m (pd_ + 26) v_softwareVersion
+  let v_ptr := t1
+  let (t2, v_softwareVersion) ← CaptureModulePayload_initStringView m v_ptr v_softwareVersion
+  let v_ptr := t2
+  let (t3, v_softwareVersion) ← CaptureModulePayload_initStringView m v_ptr v_softwareVersion
+  let v_ptr := t3
+  let (t4, v_softwareVersion) ← CaptureModulePayload_initStringView m v_ptr v_softwareVersion
+  let t5 ← CaptureModulePayload_removeTrailingNulls m v_softwareVersion
+  pure t5
 
 /-- `ASAM::CMP::CaptureModulePayload::getTimeSource` (line 127) -/
 def CaptureModulePayload_getTimeSource (m : Bytes) (pd_ pdsize_ : Nat) (this_ : Nat) : Option Nat := do
@@ -687,6 +804,48 @@ def CaptureModulePayload_getUptime (m : Bytes) (pd_ pdsize_ : Nat) (this_ : Nat)
   let t1 ← CaptureModulePayload_getHeader_v pd_ pdsize_ this_
   let t2 ← CaptureModulePayload_Header_getUptime m t1
   pure t2
+
+/-- `ASAM::CMP::CaptureModulePayload::getVendorData` (line 203) -/
+def CaptureModulePayload_getVendorData (m : Bytes) (pd_ pdsize_ : Nat) (this_ : Nat) : Option Nat := do
+  let v_vendorData := ((0, 0) : Nat × Nat)
+  let (t1, v_vendorData) ← CaptureModulePayload_initStringView m (pd_ + 26) v_vendorData
+  let v_ptr := t1
+  let (t2, v_vendorData) ← CaptureModulePayload_initStringView m v_ptr v_vendorData
+  let v_ptr := t2
+  let (t3, v_vendorData) ← CaptureModulePayload_initStringView m v_ptr v_vendorData
+  let v_ptr := t3
+  let (t4, v_vendorData) ← CaptureModulePayload_initStringView m v_ptr v_vendorData
+  let v_ptr := t4
+  let (t5, v_vendorData) ← CaptureModulePayload_initStringView m v_ptr v_vendorData
+  pure v_vendorData.1
+
+/-- `ASAM::CMP::CaptureModulePayload::getVendorDataLength` (line 191) -/
+def CaptureModulePayload_getVendorDataLength (m : Bytes) (pd_ pdsize_ : Nat) (this_ : Nat) : Option Nat := do
+  let v_vendorData := ((0, 0) : Nat × Nat)
+  let (t1, v_vendorData) ← CaptureModulePayload_initStringView m (pd_ + 26) v_vendorData
+  let v_ptr := t1
+  let (t2, v_vendorData) ← CaptureModulePayload_initStringView m v_ptr v_vendorData
+  let v_ptr := t2
+  let (t3, v_vendorData) ← CaptureModulePayload_initStringView m v_ptr v_vendorData
+  let v_ptr := t3
+  let (t4, v_vendorData) ← CaptureModulePayload_initStringView m v_ptr v_vendorData
+  let v_ptr := t4
+  let (t5, v_vendorData) ← CaptureModulePayload_initStringView m v_ptr v_vendorData
+  pure (v_vendorData.2 % 65536)
+
+/-- `ASAM::CMP::CaptureModulePayload::getVendorDataStringView` (line 215) -/
+def CaptureModulePayload_getVendorDataStringView (m : Bytes) (pd_ pdsize_ : Nat) (this_ : Nat) : Option (Nat × Nat) := do
+  let v_vendorData := ((0, 0) : Nat × Nat)
+  let (t1, v_vendorData) ← CaptureModulePayload_initStringView m (pd_ + 26) v_vendorData
+  let v_ptr := t1
+  let (t2, v_vendorData) ← CaptureModulePayload_initStringView m v_ptr v_vendorData
+  let v_ptr := t2
+  let (t3, v_vendorData) ← CaptureModulePayload_initStringView m v_ptr v_vendorData
+  let v_ptr := t3
+  let (t4, v_vendorData) ← CaptureModulePayload_initStringView m v_ptr v_vendorData
+  let v_ptr := t4
+  let (t5, v_vendorData) ← CaptureModulePayload_initStringView m v_ptr v_vendorData
+  pure v_vendorData
 
 /-- `ASAM::CMP::CaptureModulePayload::isValidPayload` (line 255) -/
 def CaptureModulePayload_isValidPayload (m : Bytes) (a_data : Nat) (a_size : Nat) : Option Bool := do
@@ -765,6 +924,32 @@ def CaptureModulePayload_isValidPayload (m : Bytes) (a_data : Nat) (a_size : Nat
 def CaptureModulePayload_setCurrentUtcOffset (m : Bytes) (pd_ pdsize_ : Nat) (this_ : Nat) (a_offset : Nat) : Option Bytes := do
   let t1 ← CaptureModulePayload_getHeader_v2 pd_ pdsize_ this_
   let m ← CaptureModulePayload_Header_setCurrentUtcOffset m t1 a_offset
+  pure m
+
+/-- `ASAM::CMP::CaptureModulePayload::setData` (line 227) -/
+def CaptureModulePayload_setData (m : Bytes) (this_ : Nat) (x_deviceDescription : Bytes) (x_serialNumber : Bytes) (x_hardwareVersion : Bytes) (x_softwareVersion : Bytes) (x_vendorData : Bytes) : Option Bytes := do
+  let v_maxNullsCount := 8
+  let v_payloadSize := (uadd 64 (uadd 64 (uadd 64 (uadd 64 (uadd 64 (uadd 64 36 x_deviceDescription.length) x_serialNumber.length) x_hardwareVersion.length) x_softwareVersion.length) x_vendorData.length) v_maxNullsCount)
+  let m := resize m v_payloadSize
+  let v_ptr := (0 + 26)
+  let (m, t1) ← CaptureModulePayload_fillWithString m this_ v_ptr x_deviceDescription
+  let v_ptr := t1
+  let (m, t2) ← CaptureModulePayload_fillWithString m this_ v_ptr x_serialNumber
+  let v_ptr := t2
+  let (m, t3) ← CaptureModulePayload_fillWithString m this_ v_ptr x_hardwareVersion
+  let v_ptr := t3
+  let (m, t4) ← CaptureModulePayload_fillWithString m this_ v_ptr x_softwareVersion
+  let v_ptr := t4
+  let v_length := (x_vendorData.length % 65536)
+  let t5 ← swapEndian_u16 v_length
+  let v_swappedLength := t5
+  let m ← wrBytes m v_ptr (leEnc 2 v_swappedLength) 2
+  let v_ptr := (v_ptr + 2)
+  let m ← wrBytes m v_ptr x_vendorData x_vendorData.length
+  let v_ptr := (v_ptr + x_vendorData.length)
+  let t6 ← psub v_ptr 0
+  let v_newSize := t6
+  let m := resize m v_newSize
   pure m
 
 /-- `ASAM::CMP::CaptureModulePayload::setDomainNumber` (line 142) -/
@@ -1014,6 +1199,19 @@ def EthernetPayload_isValidPayload (m : Bytes) (a_data : Nat) (a_size : Nat) : O
   let t2 ← (if (decide (a_size ≥ 6)) then (do let t1 ← EthernetPayload_Header_getFlags m v_header; pure ((t1 &&& 59) == 0)) else pure false)
   let t4 ← (if t2 then (do let t3 ← EthernetPayload_Header_getDataLength m v_header; pure (decide (t3 ≤ (usub 64 a_size 6)))) else pure false)
   pure t4
+
+/-- `ASAM::CMP::Payload::setData` (line 71) -/
+def Payload_setData_x_u643 (m : Bytes) (this_ : Nat) (x_data : Bytes) (a_size : Nat) : Option Bytes := do
+  let m := resize m (uadd 64 6 a_size)
+  let m ← wrBytes m (0 + 6) x_data a_size
+  pure m
+
+/-- `ASAM::CMP::EthernetPayload::setData` (line 78) -/
+def EthernetPayload_setData (m : Bytes) (this_ : Nat) (x_data : Bytes) (a_dataLength : Nat) : Option Bytes := do
+  let m ← Payload_setData_x_u643 m this_ x_data a_dataLength
+  let t1 ← EthernetPayload_getHeader_v2 0 m.length this_
+  let m ← EthernetPayload_Header_setDataLength m t1 a_dataLength
+  pure m
 
 /-- `ASAM::CMP::EthernetPayload::setFlag` (line 63) -/
 def EthernetPayload_setFlag (m : Bytes) (pd_ pdsize_ : Nat) (this_ : Nat) (a_mask : Nat) (a_value : Bool) : Option Bytes := do
@@ -1288,6 +1486,68 @@ def InterfacePayload_isValidPayload (m : Bytes) (a_data : Nat) (a_size : Nat) : 
       let v_vendorDataLength := (t8 ||| t9)
       pure (decide (v_vendorDataLength ≤ (usub 64 (usub 64 a_size v_pos) 2)))
 
+/-- `ASAM::CMP::InterfacePayload::setData` (line 235) -/
+def InterfacePayload_setData (m : Bytes) (this_ : Nat) (x_streamIds : Bytes) (a_streamIdsCount : Nat) (x_vendorData : Bytes) (a_vendorDataLength : Nat) : Option Bytes := do
+  let v_padding := 0
+  let t1 ← smod 32 a_streamIdsCount 2
+  if (t1 != 0) then
+    let v_padding := 1
+    let v_payloadSize := (uadd 64 (uadd 64 (uadd 64 (uadd 64 38 a_streamIdsCount) v_padding) 2) a_vendorDataLength)
+    let m := resize m v_payloadSize
+    let v_ptr := (0 + 36)
+    let t2 ← swapEndian_u16 a_streamIdsCount
+    let v_swappedLength := t2
+    let m ← wrBytes m v_ptr (leEnc 2 v_swappedLength) 2
+    let v_ptr := (v_ptr + 2)
+    let m ← wrBytes m v_ptr x_streamIds a_streamIdsCount
+    let t3 ← nonneg 32 a_streamIdsCount
+    let v_ptr := (v_ptr + t3)
+    if (v_padding != 0) then
+      let m ← wr m v_ptr 1 0
+      let v_ptr := (v_ptr + v_padding)
+      let t4 ← swapEndian_u16 a_vendorDataLength
+      let v_swappedLength := t4
+      let m ← wrBytes m v_ptr (leEnc 2 v_swappedLength) 2
+      let v_ptr := (v_ptr + 2)
+      let m ← wrBytes m v_ptr x_vendorData a_vendorDataLength
+      pure m
+    else
+      let v_ptr := (v_ptr + v_padding)
+      let t5 ← swapEndian_u16 a_vendorDataLength
+      let v_swappedLength := t5
+      let m ← wrBytes m v_ptr (leEnc 2 v_swappedLength) 2
+      let v_ptr := (v_ptr + 2)
+      let m ← wrBytes m v_ptr x_vendorData a_vendorDataLength
+      pure m
+  else
+    let v_payloadSize := (uadd 64 (uadd 64 (uadd 64 (uadd 64 38 a_streamIdsCount) v_padding) 2) a_vendorDataLength)
+    let m := resize m v_payloadSize
+    let v_ptr := (0 + 36)
+    let t6 ← swapEndian_u16 a_streamIdsCount
+    let v_swappedLength := t6
+    let m ← wrBytes m v_ptr (leEnc 2 v_swappedLength) 2
+    let v_ptr := (v_ptr + 2)
+    let m ← wrBytes m v_ptr x_streamIds a_streamIdsCount
+    let t7 ← nonneg 32 a_streamIdsCount
+    let v_ptr := (v_ptr + t7)
+    if (v_padding != 0) then
+      let m ← wr m v_ptr 1 0
+      let v_ptr := (v_ptr + v_padding)
+      let t8 ← swapEndian_u16 a_vendorDataLength
+      let v_swappedLength := t8
+      let m ← wrBytes m v_ptr (leEnc 2 v_swappedLength) 2
+      let v_ptr := (v_ptr + 2)
+      let m ← wrBytes m v_ptr x_vendorData a_vendorDataLength
+      pure m
+    else
+      let v_ptr := (v_ptr + v_padding)
+      let t9 ← swapEndian_u16 a_vendorDataLength
+      let v_swappedLength := t9
+      let m ← wrBytes m v_ptr (leEnc 2 v_swappedLength) 2
+      let v_ptr := (v_ptr + 2)
+      let m ← wrBytes m v_ptr x_vendorData a_vendorDataLength
+      pure m
+
 /-- `ASAM::CMP::InterfacePayload::setErrorsTotalRx` (line 170) -/
 def InterfacePayload_setErrorsTotalRx (m : Bytes) (pd_ pdsize_ : Nat) (this_ : Nat) (a_errorsTotal : Nat) : Option Bytes := do
   let t1 ← InterfacePayload_getHeader_v2 pd_ pdsize_ this_
@@ -1488,6 +1748,19 @@ def LinPayload_isValidPayload (m : Bytes) (a_data : Nat) (a_size : Nat) : Option
 def LinPayload_setChecksum (m : Bytes) (pd_ pdsize_ : Nat) (this_ : Nat) (a_checksum : Nat) : Option Bytes := do
   let t1 ← LinPayload_getHeader_v2 pd_ pdsize_ this_
   let m ← LinPayload_Header_setChecksum m t1 a_checksum
+  pure m
+
+/-- `ASAM::CMP::Payload::setData` (line 71) -/
+def Payload_setData_x_u644 (m : Bytes) (this_ : Nat) (x_data : Bytes) (a_size : Nat) : Option Bytes := do
+  let m := resize m (uadd 64 8 a_size)
+  let m ← wrBytes m (0 + 8) x_data a_size
+  pure m
+
+/-- `ASAM::CMP::LinPayload::setData` (line 140) -/
+def LinPayload_setData (m : Bytes) (this_ : Nat) (x_data : Bytes) (a_dataLength : Nat) : Option Bytes := do
+  let m ← Payload_setData_x_u644 m this_ x_data a_dataLength
+  let t1 ← LinPayload_getHeader_v2 0 m.length this_
+  let m ← LinPayload_Header_setDataLength m t1 a_dataLength
   pure m
 
 /-- `ASAM::CMP::LinPayload::setFlag` (line 95) -/
@@ -2795,6 +3068,19 @@ def TECMP_LinPayload_getPid (m : Bytes) (pd_ pdsize_ : Nat) (this_ : Nat) : Opti
   let t2 ← TECMP_LinPayload_Header_getPid m t1
   pure t2
 
+/-- `TECMP::Payload::setData` (line 71) -/
+def TECMP_Payload_setData_x_u64 (m : Bytes) (this_ : Nat) (x_data : Bytes) (a_size : Nat) : Option Bytes := do
+  let m := resize m (uadd 64 2 a_size)
+  let m ← wrBytes m (0 + 2) x_data a_size
+  pure m
+
+/-- `TECMP::LinPayload::setData` (line 50) -/
+def TECMP_LinPayload_setData (m : Bytes) (this_ : Nat) (x_data : Bytes) (a_dataLength : Nat) : Option Bytes := do
+  let m ← TECMP_Payload_setData_x_u64 m this_ x_data a_dataLength
+  let t1 ← TECMP_LinPayload_getHeader_v2 0 m.length this_
+  let m ← TECMP_LinPayload_Header_setDataLength m t1 a_dataLength
+  pure m
+
 /-- `TECMP::LinPayload::setDataLength` (line 34) -/
 def TECMP_LinPayload_setDataLength (m : Bytes) (pd_ pdsize_ : Nat) (this_ : Nat) (a_newLength : Nat) : Option Bytes := do
   let t1 ← TECMP_LinPayload_getHeader_v2 pd_ pdsize_ this_
@@ -2895,22 +3181,9 @@ def untranslated : List (String × String) := [
   ("ASAM::CMP::AnalogPayload::getSampleInterval float () const", "type float"),
   ("ASAM::CMP::AnalogPayload::getSampleOffset float () const", "type float"),
   ("ASAM::CMP::AnalogPayload::getSampleScalar float () const", "type float"),
-  ("ASAM::CMP::AnalogPayload::setData void (const uint8_t *, const size_t)", "no body for callee outside the library (std / libc)"),
   ("ASAM::CMP::AnalogPayload::setSampleInterval void (const float)", "type const float"),
   ("ASAM::CMP::AnalogPayload::setSampleOffset void (const float)", "type const float"),
   ("ASAM::CMP::AnalogPayload::setSampleScalar void (const float)", "type const float"),
-  ("ASAM::CMP::CanPayloadBase::setData void (const uint8_t *, const uint8_t)", "no body for callee outside the library (std / libc)"),
-  ("ASAM::CMP::CaptureModulePayload::fillWithString uint8_t *(uint8_t *, const std::string_view)", "type const std::string_view"),
-  ("ASAM::CMP::CaptureModulePayload::getDeviceDescription std::string_view () const", "type std::string_view"),
-  ("ASAM::CMP::CaptureModulePayload::getHardwareVersion std::string_view () const", "type std::string_view"),
-  ("ASAM::CMP::CaptureModulePayload::getSerialNumber std::string_view () const", "type std::string_view"),
-  ("ASAM::CMP::CaptureModulePayload::getSoftwareVersion std::string_view () const", "type std::string_view"),
-  ("ASAM::CMP::CaptureModulePayload::getVendorData const uint8_t *() const", "type std::string_view"),
-  ("ASAM::CMP::CaptureModulePayload::getVendorDataLength uint16_t () const", "type std::string_view"),
-  ("ASAM::CMP::CaptureModulePayload::getVendorDataStringView std::string_view () const", "type std::string_view"),
-  ("ASAM::CMP::CaptureModulePayload::initStringView const uint8_t *(const uint8_t *, std::string_view &)", "reference type std::string_view &"),
-  ("ASAM::CMP::CaptureModulePayload::removeTrailingNulls std::string_view (std::string_view)", "type std::string_view"),
-  ("ASAM::CMP::CaptureModulePayload::setData void (const std::string_view, const std::string_view, const std::string_view, const std::string_view, const std::vector<uint8_t> &)", "type const std::string_view"),
   ("ASAM::CMP::Decoder::Endpoint::operator== bool (const ASAM::CMP::Decoder::Endpoint &) const", "reference type const ASAM::CMP::Decoder::Endpoint &"),
   ("ASAM::CMP::Decoder::EndpointHash::operator() std::size_t (const ASAM::CMP::Decoder::Endpoint &) const", "reference type const ASAM::CMP::Decoder::Endpoint &"),
   ("ASAM::CMP::Decoder::SegmentedPacket::addSegment bool (const uint8_t *, const size_t, const uint8_t, const CmpHeader::MessageType, const uint16_t)", "lvalue ImplicitCastExpr"),
@@ -2944,13 +3217,10 @@ def untranslated : List (String × String) := [
   ("ASAM::CMP::Encoder::setDeviceId void (uint16_t)", "no body for callee outside the library (std / libc)"),
   ("ASAM::CMP::Encoder::setMessageType void (const ASAM::CMP::Packet &)", "reference type const ASAM::CMP::Packet &"),
   ("ASAM::CMP::Encoder::setStreamId void (uint8_t)", "no body for callee outside the library (std / libc)"),
-  ("ASAM::CMP::EthernetPayload::setData void (const uint8_t *, const uint16_t)", "no body for callee outside the library (std / libc)"),
-  ("ASAM::CMP::InterfacePayload::setData void (const uint8_t *, const uint16_t, const uint8_t *, const uint16_t)", "no body for callee outside the library (std / libc)"),
   ("ASAM::CMP::InterfaceStatus::getPacket ASAM::CMP::Packet &()", "reference type ASAM::CMP::Packet &"),
   ("ASAM::CMP::InterfaceStatus::getPacket const ASAM::CMP::Packet &() const", "reference type const ASAM::CMP::Packet &"),
   ("ASAM::CMP::InterfaceStatus::operator= ASAM::CMP::InterfaceStatus &(ASAM::CMP::InterfaceStatus &&) noexcept", "reference type ASAM::CMP::InterfaceStatus &"),
   ("ASAM::CMP::InterfaceStatus::update void (const ASAM::CMP::Packet &)", "reference type const ASAM::CMP::Packet &"),
-  ("ASAM::CMP::LinPayload::setData void (const uint8_t *, const uint8_t)", "no body for callee outside the library (std / libc)"),
   ("ASAM::CMP::Packet::create std::unique_ptr<Payload> (const ASAM::CMP::PayloadType, const uint8_t *, const size_t)", "type std::unique_ptr<Payload>"),
   ("ASAM::CMP::Packet::getMessageType CmpHeader::MessageType () const", "overloaded operator"),
   ("ASAM::CMP::Packet::getPayload ASAM::CMP::Payload &()", "reference type ASAM::CMP::Payload &"),
@@ -2965,7 +3235,7 @@ def untranslated : List (String × String) := [
   ("ASAM::CMP::Packet::setMessageHeader void (const CmpHeader::MessageType, ASAM::CMP::MessageHeader)", "type ASAM::CMP::MessageHeader"),
   ("ASAM::CMP::Packet::setPayload void (const ASAM::CMP::Payload &)", "reference type const ASAM::CMP::Payload &"),
   ("ASAM::CMP::Payload::getType ASAM::CMP::PayloadType () const", "expression CXXConstructExpr"),
-  ("ASAM::CMP::Payload::setData void (const uint8_t *, const size_t)", "no body for callee outside the library (std / libc)"),
+  ("ASAM::CMP::Payload::setData void (const uint8_t *, const size_t)", "sizeof(Header) unknown"),
   ("ASAM::CMP::Payload::setType void (const ASAM::CMP::PayloadType)", "overloaded operator"),
   ("ASAM::CMP::PayloadType::operator= ASAM::CMP::PayloadType &(const ASAM::CMP::PayloadType &) noexcept", "reference type ASAM::CMP::PayloadType &"),
   ("ASAM::CMP::Status::clear void ()", "no body for callee outside the library (std / libc)"),
@@ -2983,7 +3253,7 @@ def untranslated : List (String × String) := [
   ("ASAM::CMP::operator== bool (const ASAM::CMP::PayloadType, const ASAM::CMP::PayloadType) noexcept", "method call on a local object"),
   ("ASAM::CMP::swap void (ASAM::CMP::Packet &, ASAM::CMP::Packet &) noexcept", "reference type ASAM::CMP::Packet &"),
   ("ASAM::CMP::swapEndian float (const float)", "type float"),
-  ("TECMP::CanPayload::getCrc uint32_t () const", "no body for callee outside the library (std / libc)"),
+  ("TECMP::CanPayload::getCrc uint32_t () const", "address of a local"),
   ("TECMP::CaptureModulePayload::getHwVersion std::string () const", "type std::string"),
   ("TECMP::CaptureModulePayload::getSwVersion std::string () const", "type std::string"),
   ("TECMP::CaptureModulePayload::getVoltage float () const", "type float"),
@@ -3004,11 +3274,10 @@ def untranslated : List (String × String) := [
   ("TECMP::Decoder::GetInterfacePayload std::vector<TecmpPayloadPtr> (const uint8_t *, const std::size_t, TECMP::CmpHeader &)", "type std::vector<TecmpPayloadPtr>"),
   ("TECMP::Decoder::GetLinPayload TecmpPayloadPtr (const uint8_t *, const std::size_t)", "type TecmpPayloadPtr"),
   ("TECMP::Decoder::HandlePayload std::vector<TecmpPayloadPtr> (const uint8_t *, const std::size_t, TECMP::CmpHeader &)", "type std::vector<TecmpPayloadPtr>"),
-  ("TECMP::InterfacePayload::setBusData void (const uint8_t *, const uint8_t)", "no body for callee outside the library (std / libc)"),
-  ("TECMP::InterfacePayload::setGenericData void (const uint8_t *)", "no body for callee outside the library (std / libc)"),
-  ("TECMP::LinPayload::setData void (const uint8_t *, const uint8_t)", "no body for callee outside the library (std / libc)"),
+  ("TECMP::InterfacePayload::setBusData void (const uint8_t *, const uint8_t)", "declaration outside the library"),
+  ("TECMP::InterfacePayload::setGenericData void (const uint8_t *)", "declaration outside the library"),
   ("TECMP::Payload::getType TECMP::PayloadType () const", "expression CXXConstructExpr"),
-  ("TECMP::Payload::setData void (const uint8_t *, const size_t)", "no body for callee outside the library (std / libc)"),
+  ("TECMP::Payload::setData void (const uint8_t *, const size_t)", "sizeof(Header) unknown"),
   ("TECMP::Payload::setType void (const TECMP::PayloadType)", "overloaded operator"),
   ("TECMP::PayloadType::operator= TECMP::PayloadType &(const TECMP::PayloadType &) noexcept", "reference type TECMP::PayloadType &"),
   ("TECMP::operator!= bool (const TECMP::PayloadType, const TECMP::PayloadType) noexcept", "method call on a local object"),
@@ -3202,6 +3471,6 @@ def off_TECMP_Payload_payloadData : Nat := 8
 def off_TECMP_Payload_type : Nat := 32
 def off_TECMP_PayloadType_type : Nat := 0
 
-def translatedNames : List String := ["swapEndian_u16", "AnalogPayload_Header_getFlags", "AnalogPayload_Header_getSampleDt", "AnalogPayload_Header_getUnit", "AnalogPayload_Header_setFlags", "to_underlying_u16", "AnalogPayload_Header_setSampleDt", "to_underlying_u8", "AnalogPayload_Header_setUnit", "Payload_getLength", "AnalogPayload_getHeader_v", "AnalogPayload_getSamplesCount", "AnalogPayload_getData", "AnalogPayload_getFlags", "AnalogPayload_getHeader_v2", "AnalogPayload_getSampleDt", "AnalogPayload_getUnit", "AnalogPayload_isValidPayload", "AnalogPayload_setFlags", "AnalogPayload_setSampleDt", "AnalogPayload_setUnit", "CanPayloadBase_getHeader_v", "swapEndian_u32", "CanPayloadBase_Header_getCrcSbc", "CanFdPayload_getCrc", "CanPayloadBase_Header_getRtrRrs", "CanFdPayload_getRrs", "CanPayloadBase_Header_getSbc", "CanFdPayload_getSbc", "CanPayloadBase_Header_getSbcParity", "CanFdPayload_getSbcParity", "CanPayloadBase_Header_getSbcSupport", "CanFdPayload_getSbcSupport", "CanPayloadBase_getHeader_v2", "CanPayloadBase_Header_setCrcSbc", "CanFdPayload_setCrc", "CanPayloadBase_Header_setRtrRrs", "CanFdPayload_setRrs", "CanPayloadBase_Header_setSbc", "CanFdPayload_setSbc", "CanPayloadBase_Header_setSbcParity", "CanFdPayload_setSbcParity", "CanPayloadBase_Header_setSbcSupport", "CanFdPayload_setSbcSupport", "CanPayloadBase_Header_getCrc", "CanPayload_getCrc", "CanPayload_getRtr", "CanPayloadBase_Header_setCrc", "CanPayload_setCrc", "CanPayload_setRtr", "CanPayloadBase_Header_getCrcSupport", "CanPayloadBase_Header_getDataLength", "CanPayloadBase_Header_getDlc", "CanPayloadBase_Header_getErrorPosition", "CanPayloadBase_Header_getFlags", "CanPayloadBase_Header_getFlag", "CanPayloadBase_Header_getId", "CanPayloadBase_Header_getIde", "CanPayloadBase_Header_getRsvd", "CanPayloadBase_Header_hasError", "CanPayloadBase_Header_setCrcSupport", "CanPayloadBase_Header_setDataLength", "CanPayloadBase_Header_setDlc", "CanPayloadBase_Header_setErrorPosition", "CanPayloadBase_Header_setFlags", "CanPayloadBase_Header_setFlag", "CanPayloadBase_Header_setId", "CanPayloadBase_Header_setIde", "CanPayloadBase_Header_setRsvd", "CanPayloadBase_encodeDlc", "CanPayloadBase_getCrcSupport", "CanPayloadBase_getDataLength", "CanPayloadBase_getData", "CanPayloadBase_getDlc", "CanPayloadBase_getErrorPosition", "CanPayloadBase_getFlag", "CanPayloadBase_getFlags", "CanPayloadBase_getId", "CanPayloadBase_getIde", "CanPayloadBase_getRsvd", "CanPayloadBase_isValidPayload", "CanPayloadBase_setCrcSupport", "CanPayloadBase_setErrorPosition", "CanPayloadBase_setFlag", "CanPayloadBase_setFlags", "CanPayloadBase_setId", "CanPayloadBase_setIde", "CanPayloadBase_setRsvd", "CaptureModulePayload_Header_getCurrentUtcOffset", "CaptureModulePayload_Header_getDomainNumber", "CaptureModulePayload_Header_getGmClockQuality", "swapEndian_u64", "CaptureModulePayload_Header_getGmIdentity", "CaptureModulePayload_Header_getGptpFlags", "CaptureModulePayload_Header_getTimeSource", "CaptureModulePayload_Header_getUptime", "CaptureModulePayload_Header_setCurrentUtcOffset", "CaptureModulePayload_Header_setDomainNumber", "CaptureModulePayload_Header_setGmClockQuality", "CaptureModulePayload_Header_setGmIdentity", "CaptureModulePayload_Header_setGptpFlags", "CaptureModulePayload_Header_setTimeSource", "CaptureModulePayload_Header_setUptime", "CaptureModulePayload_getHeader_v", "CaptureModulePayload_getCurrentUtcOffset", "CaptureModulePayload_getDomainNumber", "CaptureModulePayload_getGmClockQuality", "CaptureModulePayload_getGmIdentity", "CaptureModulePayload_getGptpFlags", "CaptureModulePayload_getHeader_v2", "CaptureModulePayload_getTimeSource", "CaptureModulePayload_getUptime", "CaptureModulePayload_isValidPayload", "CaptureModulePayload_setCurrentUtcOffset", "CaptureModulePayload_setDomainNumber", "CaptureModulePayload_setGmClockQuality", "CaptureModulePayload_setGmIdentity", "CaptureModulePayload_setGptpFlags", "CaptureModulePayload_setTimeSource", "CaptureModulePayload_setUptime", "CmpHeader_getDeviceId", "CmpHeader_getMessageType", "CmpHeader_getSequenceCounter", "CmpHeader_getStreamId", "CmpHeader_getVersion", "CmpHeader_setDeviceId", "to_underlying_u82", "CmpHeader_setMessageType", "CmpHeader_setSequenceCounter", "CmpHeader_setStreamId", "CmpHeader_setVersion", "MessageHeader_getPayloadLength", "to_underlying_u83", "MessageHeader_getSegmentType", "Decoder_SegmentedPacket_isValidSegmentType", "Decoder_SegmentedPacket_isAssembled", "Decoder_isFirstSegment", "Decoder_isSegmentedPacket", "Encoder_buildSegmentationFlag", "Encoder_getDeviceId", "Encoder_getSequenceCounter", "Encoder_getStreamId", "Encoder_restart", "EthernetPayload_Header_getDataLength", "EthernetPayload_Header_getFlags", "EthernetPayload_Header_getFlag", "EthernetPayload_Header_setDataLength", "EthernetPayload_Header_setFlags", "EthernetPayload_Header_setFlag", "EthernetPayload_getHeader_v", "EthernetPayload_getDataLength", "EthernetPayload_getData", "EthernetPayload_getFlag", "EthernetPayload_getFlags", "EthernetPayload_getHeader_v2", "EthernetPayload_isValidPayload", "EthernetPayload_setFlag", "EthernetPayload_setFlags", "InterfacePayload_Header_getErrorsTotalRx", "InterfacePayload_Header_getErrorsTotalTx", "InterfacePayload_Header_getFeatureSupportBitmask", "InterfacePayload_Header_getInterfaceId", "InterfacePayload_Header_getInterfaceStatus", "InterfacePayload_Header_getInterfaceType", "InterfacePayload_Header_getMsgDroppedRx", "InterfacePayload_Header_getMsgDroppedTx", "InterfacePayload_Header_getMsgTotalRx", "InterfacePayload_Header_getMsgTotalTx", "InterfacePayload_Header_setErrorsTotalRx", "InterfacePayload_Header_setErrorsTotalTx", "InterfacePayload_Header_setFeatureSupportBitmask", "InterfacePayload_Header_setInterfaceId", "to_underlying_u84", "InterfacePayload_Header_setInterfaceStatus", "InterfacePayload_Header_setInterfaceType", "InterfacePayload_Header_setMsgDroppedRx", "InterfacePayload_Header_setMsgDroppedTx", "InterfacePayload_Header_setMsgTotalRx", "InterfacePayload_Header_setMsgTotalTx", "InterfacePayload_getHeader_v", "InterfacePayload_getErrorsTotalRx", "InterfacePayload_getErrorsTotalTx", "InterfacePayload_getFeatureSupportBitmask", "InterfacePayload_getHeader_v2", "InterfacePayload_getInterfaceId", "InterfacePayload_getInterfaceStatus", "InterfacePayload_getInterfaceType", "InterfacePayload_getMsgDroppedRx", "InterfacePayload_getMsgDroppedTx", "InterfacePayload_getMsgTotalRx", "InterfacePayload_getMsgTotalTx", "InterfacePayload_getStreamIdCountPtr", "InterfacePayload_toUint16", "InterfacePayload_getStreamIdsCount", "InterfacePayload_getStreamIds", "InterfacePayload_getVendorDataLengthPtr", "InterfacePayload_getVendorDataLength", "InterfacePayload_getVendorData", "InterfacePayload_isValidPayload", "InterfacePayload_setErrorsTotalRx", "InterfacePayload_setErrorsTotalTx", "InterfacePayload_setFeatureSupportBitmask", "InterfacePayload_setInterfaceId", "InterfacePayload_setInterfaceStatus", "InterfacePayload_setInterfaceType", "InterfacePayload_setMsgDroppedRx", "InterfacePayload_setMsgDroppedTx", "InterfacePayload_setMsgTotalRx", "InterfacePayload_setMsgTotalTx", "InterfaceStatus_getInterfaceId", "LinPayload_Header_getChecksum", "LinPayload_Header_getDataLength", "LinPayload_Header_getFlags", "LinPayload_Header_getFlag", "LinPayload_Header_getLinId", "LinPayload_Header_getParityBits", "LinPayload_Header_setChecksum", "LinPayload_Header_setDataLength", "LinPayload_Header_setFlags", "LinPayload_Header_setFlag", "LinPayload_Header_setLinId", "LinPayload_Header_setParityBits", "LinPayload_getHeader_v", "LinPayload_getChecksum", "LinPayload_getDataLength", "LinPayload_getData", "LinPayload_getFlag", "LinPayload_getFlags", "LinPayload_getHeader_v2", "LinPayload_getLinId", "LinPayload_getParityBits", "LinPayload_isValidPayload", "LinPayload_setChecksum", "LinPayload_setFlag", "LinPayload_setFlags", "LinPayload_setLinId", "LinPayload_setParityBits", "MessageHeader_getCommonFlag", "MessageHeader_getCommonFlags", "MessageHeader_getInterfaceId", "MessageHeader_getPayloadType", "MessageHeader_getTimestamp", "MessageHeader_getVendorId", "MessageHeader_setCommonFlag", "MessageHeader_setCommonFlags", "MessageHeader_setInterfaceId", "MessageHeader_setPayloadLength", "MessageHeader_setPayloadType", "to_underlying_u85", "MessageHeader_setSegmentType", "MessageHeader_setTimestamp", "MessageHeader_setVendorId", "Packet_getCommonFlag", "Packet_getCommonFlags", "Packet_getDeviceId", "Packet_getInterfaceId", "Packet_getSegmentType", "Packet_getSequenceCounter", "Packet_getStreamId", "Packet_getTimestamp", "Packet_getVendorId", "Packet_getVersion", "Packet_isValidPacket", "Packet_setCommonFlag", "Packet_setCommonFlags", "Packet_setDeviceId", "Packet_setInterfaceId", "Packet_setSegmentType", "Packet_setSequenceCounter", "Packet_setStreamId", "Packet_setTimestamp", "Packet_setVendorId", "Packet_setVersion", "PayloadType_getMessageType", "Payload_getMessageType", "Payload_getRawPayload", "PayloadType_getRawPayloadType", "Payload_getRawPayloadType", "PayloadType_isValid", "Payload_isValid", "PayloadType_setMessageType", "Payload_setMessageType", "PayloadType_setRawPayloadType", "Payload_setRawPayloadType", "PayloadType_getType", "PayloadType_setType", "swapEndian_u8", "to_underlying_u162", "to_underlying_u86", "TECMP_CanPayload_Header_getArbId", "TECMP_CanPayload_Header_getDlc", "TECMP_CanPayload_Header_setArbId", "TECMP_CanPayload_Header_setDlc", "TECMP_CanPayload_getHeader_v", "TECMP_CanPayload_getArbId", "TECMP_CanPayload_getData", "TECMP_CanPayload_getDlc", "TECMP_CanPayload_getHeader_v2", "TECMP_CanPayload_setArbId", "TECMP_CanPayload_setDlc", "TECMP_CaptureModulePayload_Header_getBufferFill", "TECMP_CaptureModulePayload_Header_getBufferSize", "TECMP_CaptureModulePayload_Header_getChassisTemp", "TECMP_CaptureModulePayload_Header_getDeviceId", "TECMP_CaptureModulePayload_Header_getDeviceType", "TECMP_CaptureModulePayload_Header_getDeviceVersion", "TECMP_CaptureModulePayload_Header_getHwVersionMajor", "TECMP_CaptureModulePayload_Header_getHwVersionMinor", "TECMP_CaptureModulePayload_Header_getIsBufferOverflow", "TECMP_CaptureModulePayload_Header_getLifecycle", "TECMP_CaptureModulePayload_Header_getSerialNumber", "TECMP_CaptureModulePayload_Header_getSilliconTemp", "TECMP_CaptureModulePayload_Header_getSwVersionMajor", "TECMP_CaptureModulePayload_Header_getSwVersionMinor", "TECMP_CaptureModulePayload_Header_getSwVersionPatch", "TECMP_CaptureModulePayload_Header_getVendorDataLength", "TECMP_CaptureModulePayload_Header_getVendorId", "TECMP_CaptureModulePayload_Header_getVoltageFraction", "TECMP_CaptureModulePayload_Header_getVoltageWhole", "TECMP_CaptureModulePayload_Header_setBufferFill", "TECMP_CaptureModulePayload_Header_setBufferSize", "TECMP_CaptureModulePayload_Header_setChassisTemp", "TECMP_CaptureModulePayload_Header_setDeviceId", "TECMP_CaptureModulePayload_Header_setDeviceType", "TECMP_CaptureModulePayload_Header_setDeviceVersion", "TECMP_CaptureModulePayload_Header_setHwVersionMajor", "TECMP_CaptureModulePayload_Header_setHwVersionMinor", "TECMP_CaptureModulePayload_Header_setIsBufferOverflow", "TECMP_CaptureModulePayload_Header_setLifecycle", "TECMP_CaptureModulePayload_Header_setSerialNumber", "TECMP_CaptureModulePayload_Header_setSilliconTemp", "TECMP_CaptureModulePayload_Header_setSwVersionMajor", "TECMP_CaptureModulePayload_Header_setSwVersionMinor", "TECMP_CaptureModulePayload_Header_setSwVersionPatch", "TECMP_CaptureModulePayload_Header_setVendorDataLength", "TECMP_CaptureModulePayload_Header_setVendorId", "TECMP_CaptureModulePayload_Header_setVoltageFraction", "TECMP_CaptureModulePayload_Header_setVoltageWhole", "TECMP_CaptureModulePayload_getHeader_v", "TECMP_CaptureModulePayload_getBufferFill", "TECMP_CaptureModulePayload_getBufferSize", "TECMP_CaptureModulePayload_getChassisTemp", "TECMP_CaptureModulePayload_getDeviceId", "TECMP_CaptureModulePayload_getDeviceType", "TECMP_CaptureModulePayload_getDeviceVersion", "TECMP_CaptureModulePayload_getHeader_v2", "TECMP_CaptureModulePayload_getHwVersionMajor", "TECMP_CaptureModulePayload_getHwVersionMinor", "TECMP_CaptureModulePayload_getIsBufferOverflow", "TECMP_CaptureModulePayload_getLifecycle", "TECMP_CaptureModulePayload_getSerialNumber", "TECMP_CaptureModulePayload_getSilliconTemp", "TECMP_CaptureModulePayload_getSwVersionMajor", "TECMP_CaptureModulePayload_getSwVersionMinor", "TECMP_CaptureModulePayload_getSwVersionPatch", "TECMP_CaptureModulePayload_getVendorDataLength", "TECMP_CaptureModulePayload_getVendorId", "TECMP_CaptureModulePayload_getVoltageFraction", "TECMP_CaptureModulePayload_getVoltageWhole", "TECMP_CaptureModulePayload_setBufferFill", "TECMP_CaptureModulePayload_setBufferSize", "TECMP_CaptureModulePayload_setChassisTemp", "TECMP_CaptureModulePayload_setDeviceId", "TECMP_CaptureModulePayload_setDeviceType", "TECMP_CaptureModulePayload_setDeviceVersion", "TECMP_CaptureModulePayload_setHwVersionMajor", "TECMP_CaptureModulePayload_setHwVersionMinor", "TECMP_CaptureModulePayload_setIsBufferOverflow", "TECMP_CaptureModulePayload_setLifecycle", "TECMP_CaptureModulePayload_setSerialNumber", "TECMP_CaptureModulePayload_setSilliconTemp", "TECMP_CaptureModulePayload_setSwVersionMajor", "TECMP_CaptureModulePayload_setSwVersionMinor", "TECMP_CaptureModulePayload_setSwVersionPatch", "TECMP_CaptureModulePayload_setVendorDataLength", "TECMP_CaptureModulePayload_setVendorId", "TECMP_CaptureModulePayload_setVoltageFraction", "TECMP_CaptureModulePayload_setVoltageWhole", "TECMP_CmpHeader_getDataType", "TECMP_CmpHeader_getDeviceFlags", "TECMP_CmpHeader_getDeviceId", "TECMP_CmpHeader_getInterfaceId", "TECMP_CmpHeader_getMessageType", "TECMP_CmpHeader_getPayloadLength", "TECMP_CmpHeader_getSequenceCounter", "TECMP_CmpHeader_getTimestamp", "TECMP_CmpHeader_getVersion", "TECMP_CmpHeader_isValid", "TECMP_CmpHeader_setDataType", "TECMP_CmpHeader_setDeviceFlags", "TECMP_CmpHeader_setDeviceId", "TECMP_CmpHeader_setInterfaceId", "TECMP_CmpHeader_setMessageType", "TECMP_CmpHeader_setPayloadLength", "TECMP_CmpHeader_setSequenceCounter", "TECMP_CmpHeader_setTimestamp", "TECMP_CmpHeader_setVersion", "TECMP_InterfacePayload_Header_getCmType", "TECMP_InterfacePayload_Header_getCmVersion", "TECMP_InterfacePayload_Header_getDeviceId", "TECMP_InterfacePayload_Header_getErrorsTotal", "TECMP_InterfacePayload_Header_getInterfaceId", "TECMP_InterfacePayload_Header_getMessagesTotal", "TECMP_InterfacePayload_Header_getSerialNumber", "TECMP_InterfacePayload_Header_getVendorDataLength", "TECMP_InterfacePayload_Header_getVendorDataLinkQuality", "TECMP_InterfacePayload_Header_getVendorDataLinkStatus", "TECMP_InterfacePayload_Header_getVendorDataLinkupTime", "TECMP_InterfacePayload_Header_getVendorId", "TECMP_InterfacePayload_Header_setCmType", "TECMP_InterfacePayload_Header_setCmVersion", "TECMP_InterfacePayload_Header_setDeviceId", "TECMP_InterfacePayload_Header_setErrorsTotal", "TECMP_InterfacePayload_Header_setInterfaceId", "TECMP_InterfacePayload_Header_setMessagesTotal", "TECMP_InterfacePayload_Header_setSerialNumber", "TECMP_InterfacePayload_Header_setVendorDataLength", "TECMP_InterfacePayload_Header_setVendorDataLinkQuality", "TECMP_InterfacePayload_Header_setVendorDataLinkStatus", "TECMP_InterfacePayload_Header_setVendorDataLinkupTime", "TECMP_InterfacePayload_Header_setVendorId", "TECMP_InterfacePayload_getHeader_v", "TECMP_InterfacePayload_getCmType", "TECMP_InterfacePayload_getCmVersion", "TECMP_InterfacePayload_getDeviceId", "TECMP_InterfacePayload_getErrorsTotal", "TECMP_InterfacePayload_getHeader_v2", "TECMP_InterfacePayload_getInterfaceId", "TECMP_InterfacePayload_getMessagesTotal", "TECMP_InterfacePayload_getSerialNumber", "TECMP_InterfacePayload_getVendorDataLength", "TECMP_InterfacePayload_getVendorDataLinkQuality", "TECMP_InterfacePayload_getVendorDataLinkStatus", "TECMP_InterfacePayload_getVendorDataLinkupTime", "TECMP_InterfacePayload_getVendorId", "TECMP_InterfacePayload_setCmType", "TECMP_InterfacePayload_setCmVersion", "TECMP_InterfacePayload_setDeviceId", "TECMP_InterfacePayload_setErrorsTotal", "TECMP_InterfacePayload_setInterfaceId", "TECMP_InterfacePayload_setMessagesTotal", "TECMP_InterfacePayload_setSerialNumber", "TECMP_InterfacePayload_setVendorDataLength", "TECMP_InterfacePayload_setVendorDataLinkQuality", "TECMP_InterfacePayload_setVendorDataLinkStatus", "TECMP_InterfacePayload_setVendorDataLinkupTime", "TECMP_InterfacePayload_setVendorId", "TECMP_LinPayload_Header_getDataLength", "TECMP_LinPayload_Header_getPid", "TECMP_LinPayload_Header_setDataLength", "TECMP_LinPayload_Header_setPid", "TECMP_LinPayload_getHeader_v", "TECMP_LinPayload_getCrc", "TECMP_LinPayload_getData", "TECMP_LinPayload_getDataLength", "TECMP_LinPayload_getHeader_v2", "TECMP_LinPayload_getPid", "TECMP_LinPayload_setDataLength", "TECMP_LinPayload_setPid", "TECMP_Payload_getLength", "TECMP_PayloadType_getMessageType", "TECMP_Payload_getMessageType", "TECMP_Payload_getRawPayload", "TECMP_PayloadType_getRawPayloadType", "TECMP_Payload_getRawPayloadType", "TECMP_PayloadType_isValid", "TECMP_Payload_isValid", "TECMP_PayloadType_setMessageType", "TECMP_Payload_setMessageType", "TECMP_PayloadType_setRawPayloadType", "TECMP_Payload_setRawPayloadType", "TECMP_PayloadType_getType", "TECMP_PayloadType_setType"]
+def translatedNames : List String := ["swapEndian_u16", "AnalogPayload_Header_getFlags", "AnalogPayload_Header_getSampleDt", "AnalogPayload_Header_getUnit", "AnalogPayload_Header_setFlags", "to_underlying_u16", "AnalogPayload_Header_setSampleDt", "to_underlying_u8", "AnalogPayload_Header_setUnit", "Payload_getLength", "AnalogPayload_getHeader_v", "AnalogPayload_getSamplesCount", "AnalogPayload_getData", "AnalogPayload_getFlags", "AnalogPayload_getHeader_v2", "AnalogPayload_getSampleDt", "AnalogPayload_getUnit", "AnalogPayload_isValidPayload", "Payload_setData_x_u64", "AnalogPayload_setData", "AnalogPayload_setFlags", "AnalogPayload_setSampleDt", "AnalogPayload_setUnit", "CanPayloadBase_getHeader_v", "swapEndian_u32", "CanPayloadBase_Header_getCrcSbc", "CanFdPayload_getCrc", "CanPayloadBase_Header_getRtrRrs", "CanFdPayload_getRrs", "CanPayloadBase_Header_getSbc", "CanFdPayload_getSbc", "CanPayloadBase_Header_getSbcParity", "CanFdPayload_getSbcParity", "CanPayloadBase_Header_getSbcSupport", "CanFdPayload_getSbcSupport", "CanPayloadBase_getHeader_v2", "CanPayloadBase_Header_setCrcSbc", "CanFdPayload_setCrc", "CanPayloadBase_Header_setRtrRrs", "CanFdPayload_setRrs", "CanPayloadBase_Header_setSbc", "CanFdPayload_setSbc", "CanPayloadBase_Header_setSbcParity", "CanFdPayload_setSbcParity", "CanPayloadBase_Header_setSbcSupport", "CanFdPayload_setSbcSupport", "CanPayloadBase_Header_getCrc", "CanPayload_getCrc", "CanPayload_getRtr", "CanPayloadBase_Header_setCrc", "CanPayload_setCrc", "CanPayload_setRtr", "CanPayloadBase_Header_getCrcSupport", "CanPayloadBase_Header_getDataLength", "CanPayloadBase_Header_getDlc", "CanPayloadBase_Header_getErrorPosition", "CanPayloadBase_Header_getFlags", "CanPayloadBase_Header_getFlag", "CanPayloadBase_Header_getId", "CanPayloadBase_Header_getIde", "CanPayloadBase_Header_getRsvd", "CanPayloadBase_Header_hasError", "CanPayloadBase_Header_setCrcSupport", "CanPayloadBase_Header_setDataLength", "CanPayloadBase_Header_setDlc", "CanPayloadBase_Header_setErrorPosition", "CanPayloadBase_Header_setFlags", "CanPayloadBase_Header_setFlag", "CanPayloadBase_Header_setId", "CanPayloadBase_Header_setIde", "CanPayloadBase_Header_setRsvd", "CanPayloadBase_encodeDlc", "CanPayloadBase_getCrcSupport", "CanPayloadBase_getDataLength", "CanPayloadBase_getData", "CanPayloadBase_getDlc", "CanPayloadBase_getErrorPosition", "CanPayloadBase_getFlag", "CanPayloadBase_getFlags", "CanPayloadBase_getId", "CanPayloadBase_getIde", "CanPayloadBase_getRsvd", "CanPayloadBase_isValidPayload", "CanPayloadBase_setCrcSupport", "Payload_setData_x_u642", "CanPayloadBase_setData", "CanPayloadBase_setErrorPosition", "CanPayloadBase_setFlag", "CanPayloadBase_setFlags", "CanPayloadBase_setId", "CanPayloadBase_setIde", "CanPayloadBase_setRsvd", "CaptureModulePayload_Header_getCurrentUtcOffset", "CaptureModulePayload_Header_getDomainNumber", "CaptureModulePayload_Header_getGmClockQuality", "swapEndian_u64", "CaptureModulePayload_Header_getGmIdentity", "CaptureModulePayload_Header_getGptpFlags", "CaptureModulePayload_Header_getTimeSource", "CaptureModulePayload_Header_getUptime", "CaptureModulePayload_Header_setCurrentUtcOffset", "CaptureModulePayload_Header_setDomainNumber", "CaptureModulePayload_Header_setGmClockQuality", "CaptureModulePayload_Header_setGmIdentity", "CaptureModulePayload_Header_setGptpFlags", "CaptureModulePayload_Header_setTimeSource", "CaptureModulePayload_Header_setUptime", "CaptureModulePayload_fillWithString", "CaptureModulePayload_getHeader_v", "CaptureModulePayload_getCurrentUtcOffset", "CaptureModulePayload_initStringView", "CaptureModulePayload_removeTrailingNulls", "CaptureModulePayload_getDeviceDescription", "CaptureModulePayload_getDomainNumber", "CaptureModulePayload_getGmClockQuality", "CaptureModulePayload_getGmIdentity", "CaptureModulePayload_getGptpFlags", "CaptureModulePayload_getHardwareVersion", "CaptureModulePayload_getHeader_v2", "CaptureModulePayload_getSerialNumber", "CaptureModulePayload_getSoftwareVersion", "CaptureModulePayload_getTimeSource", "CaptureModulePayload_getUptime", "CaptureModulePayload_getVendorData", "CaptureModulePayload_getVendorDataLength", "CaptureModulePayload_getVendorDataStringView", "CaptureModulePayload_isValidPayload", "CaptureModulePayload_setCurrentUtcOffset", "CaptureModulePayload_setData", "CaptureModulePayload_setDomainNumber", "CaptureModulePayload_setGmClockQuality", "CaptureModulePayload_setGmIdentity", "CaptureModulePayload_setGptpFlags", "CaptureModulePayload_setTimeSource", "CaptureModulePayload_setUptime", "CmpHeader_getDeviceId", "CmpHeader_getMessageType", "CmpHeader_getSequenceCounter", "CmpHeader_getStreamId", "CmpHeader_getVersion", "CmpHeader_setDeviceId", "to_underlying_u82", "CmpHeader_setMessageType", "CmpHeader_setSequenceCounter", "CmpHeader_setStreamId", "CmpHeader_setVersion", "MessageHeader_getPayloadLength", "to_underlying_u83", "MessageHeader_getSegmentType", "Decoder_SegmentedPacket_isValidSegmentType", "Decoder_SegmentedPacket_isAssembled", "Decoder_isFirstSegment", "Decoder_isSegmentedPacket", "Encoder_buildSegmentationFlag", "Encoder_getDeviceId", "Encoder_getSequenceCounter", "Encoder_getStreamId", "Encoder_restart", "EthernetPayload_Header_getDataLength", "EthernetPayload_Header_getFlags", "EthernetPayload_Header_getFlag", "EthernetPayload_Header_setDataLength", "EthernetPayload_Header_setFlags", "EthernetPayload_Header_setFlag", "EthernetPayload_getHeader_v", "EthernetPayload_getDataLength", "EthernetPayload_getData", "EthernetPayload_getFlag", "EthernetPayload_getFlags", "EthernetPayload_getHeader_v2", "EthernetPayload_isValidPayload", "Payload_setData_x_u643", "EthernetPayload_setData", "EthernetPayload_setFlag", "EthernetPayload_setFlags", "InterfacePayload_Header_getErrorsTotalRx", "InterfacePayload_Header_getErrorsTotalTx", "InterfacePayload_Header_getFeatureSupportBitmask", "InterfacePayload_Header_getInterfaceId", "InterfacePayload_Header_getInterfaceStatus", "InterfacePayload_Header_getInterfaceType", "InterfacePayload_Header_getMsgDroppedRx", "InterfacePayload_Header_getMsgDroppedTx", "InterfacePayload_Header_getMsgTotalRx", "InterfacePayload_Header_getMsgTotalTx", "InterfacePayload_Header_setErrorsTotalRx", "InterfacePayload_Header_setErrorsTotalTx", "InterfacePayload_Header_setFeatureSupportBitmask", "InterfacePayload_Header_setInterfaceId", "to_underlying_u84", "InterfacePayload_Header_setInterfaceStatus", "InterfacePayload_Header_setInterfaceType", "InterfacePayload_Header_setMsgDroppedRx", "InterfacePayload_Header_setMsgDroppedTx", "InterfacePayload_Header_setMsgTotalRx", "InterfacePayload_Header_setMsgTotalTx", "InterfacePayload_getHeader_v", "InterfacePayload_getErrorsTotalRx", "InterfacePayload_getErrorsTotalTx", "InterfacePayload_getFeatureSupportBitmask", "InterfacePayload_getHeader_v2", "InterfacePayload_getInterfaceId", "InterfacePayload_getInterfaceStatus", "InterfacePayload_getInterfaceType", "InterfacePayload_getMsgDroppedRx", "InterfacePayload_getMsgDroppedTx", "InterfacePayload_getMsgTotalRx", "InterfacePayload_getMsgTotalTx", "InterfacePayload_getStreamIdCountPtr", "InterfacePayload_toUint16", "InterfacePayload_getStreamIdsCount", "InterfacePayload_getStreamIds", "InterfacePayload_getVendorDataLengthPtr", "InterfacePayload_getVendorDataLength", "InterfacePayload_getVendorData", "InterfacePayload_isValidPayload", "InterfacePayload_setData", "InterfacePayload_setErrorsTotalRx", "InterfacePayload_setErrorsTotalTx", "InterfacePayload_setFeatureSupportBitmask", "InterfacePayload_setInterfaceId", "InterfacePayload_setInterfaceStatus", "InterfacePayload_setInterfaceType", "InterfacePayload_setMsgDroppedRx", "InterfacePayload_setMsgDroppedTx", "InterfacePayload_setMsgTotalRx", "InterfacePayload_setMsgTotalTx", "InterfaceStatus_getInterfaceId", "LinPayload_Header_getChecksum", "LinPayload_Header_getDataLength", "LinPayload_Header_getFlags", "LinPayload_Header_getFlag", "LinPayload_Header_getLinId", "LinPayload_Header_getParityBits", "LinPayload_Header_setChecksum", "LinPayload_Header_setDataLength", "LinPayload_Header_setFlags", "LinPayload_Header_setFlag", "LinPayload_Header_setLinId", "LinPayload_Header_setParityBits", "LinPayload_getHeader_v", "LinPayload_getChecksum", "LinPayload_getDataLength", "LinPayload_getData", "LinPayload_getFlag", "LinPayload_getFlags", "LinPayload_getHeader_v2", "LinPayload_getLinId", "LinPayload_getParityBits", "LinPayload_isValidPayload", "LinPayload_setChecksum", "Payload_setData_x_u644", "LinPayload_setData", "LinPayload_setFlag", "LinPayload_setFlags", "LinPayload_setLinId", "LinPayload_setParityBits", "MessageHeader_getCommonFlag", "MessageHeader_getCommonFlags", "MessageHeader_getInterfaceId", "MessageHeader_getPayloadType", "MessageHeader_getTimestamp", "MessageHeader_getVendorId", "MessageHeader_setCommonFlag", "MessageHeader_setCommonFlags", "MessageHeader_setInterfaceId", "MessageHeader_setPayloadLength", "MessageHeader_setPayloadType", "to_underlying_u85", "MessageHeader_setSegmentType", "MessageHeader_setTimestamp", "MessageHeader_setVendorId", "Packet_getCommonFlag", "Packet_getCommonFlags", "Packet_getDeviceId", "Packet_getInterfaceId", "Packet_getSegmentType", "Packet_getSequenceCounter", "Packet_getStreamId", "Packet_getTimestamp", "Packet_getVendorId", "Packet_getVersion", "Packet_isValidPacket", "Packet_setCommonFlag", "Packet_setCommonFlags", "Packet_setDeviceId", "Packet_setInterfaceId", "Packet_setSegmentType", "Packet_setSequenceCounter", "Packet_setStreamId", "Packet_setTimestamp", "Packet_setVendorId", "Packet_setVersion", "PayloadType_getMessageType", "Payload_getMessageType", "Payload_getRawPayload", "PayloadType_getRawPayloadType", "Payload_getRawPayloadType", "PayloadType_isValid", "Payload_isValid", "PayloadType_setMessageType", "Payload_setMessageType", "PayloadType_setRawPayloadType", "Payload_setRawPayloadType", "PayloadType_getType", "PayloadType_setType", "swapEndian_u8", "to_underlying_u162", "to_underlying_u86", "TECMP_CanPayload_Header_getArbId", "TECMP_CanPayload_Header_getDlc", "TECMP_CanPayload_Header_setArbId", "TECMP_CanPayload_Header_setDlc", "TECMP_CanPayload_getHeader_v", "TECMP_CanPayload_getArbId", "TECMP_CanPayload_getData", "TECMP_CanPayload_getDlc", "TECMP_CanPayload_getHeader_v2", "TECMP_CanPayload_setArbId", "TECMP_CanPayload_setDlc", "TECMP_CaptureModulePayload_Header_getBufferFill", "TECMP_CaptureModulePayload_Header_getBufferSize", "TECMP_CaptureModulePayload_Header_getChassisTemp", "TECMP_CaptureModulePayload_Header_getDeviceId", "TECMP_CaptureModulePayload_Header_getDeviceType", "TECMP_CaptureModulePayload_Header_getDeviceVersion", "TECMP_CaptureModulePayload_Header_getHwVersionMajor", "TECMP_CaptureModulePayload_Header_getHwVersionMinor", "TECMP_CaptureModulePayload_Header_getIsBufferOverflow", "TECMP_CaptureModulePayload_Header_getLifecycle", "TECMP_CaptureModulePayload_Header_getSerialNumber", "TECMP_CaptureModulePayload_Header_getSilliconTemp", "TECMP_CaptureModulePayload_Header_getSwVersionMajor", "TECMP_CaptureModulePayload_Header_getSwVersionMinor", "TECMP_CaptureModulePayload_Header_getSwVersionPatch", "TECMP_CaptureModulePayload_Header_getVendorDataLength", "TECMP_CaptureModulePayload_Header_getVendorId", "TECMP_CaptureModulePayload_Header_getVoltageFraction", "TECMP_CaptureModulePayload_Header_getVoltageWhole", "TECMP_CaptureModulePayload_Header_setBufferFill", "TECMP_CaptureModulePayload_Header_setBufferSize", "TECMP_CaptureModulePayload_Header_setChassisTemp", "TECMP_CaptureModulePayload_Header_setDeviceId", "TECMP_CaptureModulePayload_Header_setDeviceType", "TECMP_CaptureModulePayload_Header_setDeviceVersion", "TECMP_CaptureModulePayload_Header_setHwVersionMajor", "TECMP_CaptureModulePayload_Header_setHwVersionMinor", "TECMP_CaptureModulePayload_Header_setIsBufferOverflow", "TECMP_CaptureModulePayload_Header_setLifecycle", "TECMP_CaptureModulePayload_Header_setSerialNumber", "TECMP_CaptureModulePayload_Header_setSilliconTemp", "TECMP_CaptureModulePayload_Header_setSwVersionMajor", "TECMP_CaptureModulePayload_Header_setSwVersionMinor", "TECMP_CaptureModulePayload_Header_setSwVersionPatch", "TECMP_CaptureModulePayload_Header_setVendorDataLength", "TECMP_CaptureModulePayload_Header_setVendorId", "TECMP_CaptureModulePayload_Header_setVoltageFraction", "TECMP_CaptureModulePayload_Header_setVoltageWhole", "TECMP_CaptureModulePayload_getHeader_v", "TECMP_CaptureModulePayload_getBufferFill", "TECMP_CaptureModulePayload_getBufferSize", "TECMP_CaptureModulePayload_getChassisTemp", "TECMP_CaptureModulePayload_getDeviceId", "TECMP_CaptureModulePayload_getDeviceType", "TECMP_CaptureModulePayload_getDeviceVersion", "TECMP_CaptureModulePayload_getHeader_v2", "TECMP_CaptureModulePayload_getHwVersionMajor", "TECMP_CaptureModulePayload_getHwVersionMinor", "TECMP_CaptureModulePayload_getIsBufferOverflow", "TECMP_CaptureModulePayload_getLifecycle", "TECMP_CaptureModulePayload_getSerialNumber", "TECMP_CaptureModulePayload_getSilliconTemp", "TECMP_CaptureModulePayload_getSwVersionMajor", "TECMP_CaptureModulePayload_getSwVersionMinor", "TECMP_CaptureModulePayload_getSwVersionPatch", "TECMP_CaptureModulePayload_getVendorDataLength", "TECMP_CaptureModulePayload_getVendorId", "TECMP_CaptureModulePayload_getVoltageFraction", "TECMP_CaptureModulePayload_getVoltageWhole", "TECMP_CaptureModulePayload_setBufferFill", "TECMP_CaptureModulePayload_setBufferSize", "TECMP_CaptureModulePayload_setChassisTemp", "TECMP_CaptureModulePayload_setDeviceId", "TECMP_CaptureModulePayload_setDeviceType", "TECMP_CaptureModulePayload_setDeviceVersion", "TECMP_CaptureModulePayload_setHwVersionMajor", "TECMP_CaptureModulePayload_setHwVersionMinor", "TECMP_CaptureModulePayload_setIsBufferOverflow", "TECMP_CaptureModulePayload_setLifecycle", "TECMP_CaptureModulePayload_setSerialNumber", "TECMP_CaptureModulePayload_setSilliconTemp", "TECMP_CaptureModulePayload_setSwVersionMajor", "TECMP_CaptureModulePayload_setSwVersionMinor", "TECMP_CaptureModulePayload_setSwVersionPatch", "TECMP_CaptureModulePayload_setVendorDataLength", "TECMP_CaptureModulePayload_setVendorId", "TECMP_CaptureModulePayload_setVoltageFraction", "TECMP_CaptureModulePayload_setVoltageWhole", "TECMP_CmpHeader_getDataType", "TECMP_CmpHeader_getDeviceFlags", "TECMP_CmpHeader_getDeviceId", "TECMP_CmpHeader_getInterfaceId", "TECMP_CmpHeader_getMessageType", "TECMP_CmpHeader_getPayloadLength", "TECMP_CmpHeader_getSequenceCounter", "TECMP_CmpHeader_getTimestamp", "TECMP_CmpHeader_getVersion", "TECMP_CmpHeader_isValid", "TECMP_CmpHeader_setDataType", "TECMP_CmpHeader_setDeviceFlags", "TECMP_CmpHeader_setDeviceId", "TECMP_CmpHeader_setInterfaceId", "TECMP_CmpHeader_setMessageType", "TECMP_CmpHeader_setPayloadLength", "TECMP_CmpHeader_setSequenceCounter", "TECMP_CmpHeader_setTimestamp", "TECMP_CmpHeader_setVersion", "TECMP_InterfacePayload_Header_getCmType", "TECMP_InterfacePayload_Header_getCmVersion", "TECMP_InterfacePayload_Header_getDeviceId", "TECMP_InterfacePayload_Header_getErrorsTotal", "TECMP_InterfacePayload_Header_getInterfaceId", "TECMP_InterfacePayload_Header_getMessagesTotal", "TECMP_InterfacePayload_Header_getSerialNumber", "TECMP_InterfacePayload_Header_getVendorDataLength", "TECMP_InterfacePayload_Header_getVendorDataLinkQuality", "TECMP_InterfacePayload_Header_getVendorDataLinkStatus", "TECMP_InterfacePayload_Header_getVendorDataLinkupTime", "TECMP_InterfacePayload_Header_getVendorId", "TECMP_InterfacePayload_Header_setCmType", "TECMP_InterfacePayload_Header_setCmVersion", "TECMP_InterfacePayload_Header_setDeviceId", "TECMP_InterfacePayload_Header_setErrorsTotal", "TECMP_InterfacePayload_Header_setInterfaceId", "TECMP_InterfacePayload_Header_setMessagesTotal", "TECMP_InterfacePayload_Header_setSerialNumber", "TECMP_InterfacePayload_Header_setVendorDataLength", "TECMP_InterfacePayload_Header_setVendorDataLinkQuality", "TECMP_InterfacePayload_Header_setVendorDataLinkStatus", "TECMP_InterfacePayload_Header_setVendorDataLinkupTime", "TECMP_InterfacePayload_Header_setVendorId", "TECMP_InterfacePayload_getHeader_v", "TECMP_InterfacePayload_getCmType", "TECMP_InterfacePayload_getCmVersion", "TECMP_InterfacePayload_getDeviceId", "TECMP_InterfacePayload_getErrorsTotal", "TECMP_InterfacePayload_getHeader_v2", "TECMP_InterfacePayload_getInterfaceId", "TECMP_InterfacePayload_getMessagesTotal", "TECMP_InterfacePayload_getSerialNumber", "TECMP_InterfacePayload_getVendorDataLength", "TECMP_InterfacePayload_getVendorDataLinkQuality", "TECMP_InterfacePayload_getVendorDataLinkStatus", "TECMP_InterfacePayload_getVendorDataLinkupTime", "TECMP_InterfacePayload_getVendorId", "TECMP_InterfacePayload_setCmType", "TECMP_InterfacePayload_setCmVersion", "TECMP_InterfacePayload_setDeviceId", "TECMP_InterfacePayload_setErrorsTotal", "TECMP_InterfacePayload_setInterfaceId", "TECMP_InterfacePayload_setMessagesTotal", "TECMP_InterfacePayload_setSerialNumber", "TECMP_InterfacePayload_setVendorDataLength", "TECMP_InterfacePayload_setVendorDataLinkQuality", "TECMP_InterfacePayload_setVendorDataLinkStatus", "TECMP_InterfacePayload_setVendorDataLinkupTime", "TECMP_InterfacePayload_setVendorId", "TECMP_LinPayload_Header_getDataLength", "TECMP_LinPayload_Header_getPid", "TECMP_LinPayload_Header_setDataLength", "TECMP_LinPayload_Header_setPid", "TECMP_LinPayload_getHeader_v", "TECMP_LinPayload_getCrc", "TECMP_LinPayload_getData", "TECMP_LinPayload_getDataLength", "TECMP_LinPayload_getHeader_v2", "TECMP_LinPayload_getPid", "TECMP_Payload_setData_x_u64", "TECMP_LinPayload_setData", "TECMP_LinPayload_setDataLength", "TECMP_LinPayload_setPid", "TECMP_Payload_getLength", "TECMP_PayloadType_getMessageType", "TECMP_Payload_getMessageType", "TECMP_Payload_getRawPayload", "TECMP_PayloadType_getRawPayloadType", "TECMP_Payload_getRawPayloadType", "TECMP_PayloadType_isValid", "TECMP_Payload_isValid", "TECMP_PayloadType_setMessageType", "TECMP_Payload_setMessageType", "TECMP_PayloadType_setRawPayloadType", "TECMP_Payload_setRawPayloadType", "TECMP_PayloadType_getType", "TECMP_PayloadType_setType"]
 
 end AsamCmp.SrcGen
